@@ -390,6 +390,13 @@ pub fn cases_pairs_c15(tier: &str, stats: &mut Stats, out: &mut Out) {
         alphabet.push(('s', k));
     }
     let max_len = if tier == "thorough" { 4 } else { 3 };
+    let mut files: std::collections::HashMap<&str, (Vec<u8>, Vec<u8>)> = std::collections::HashMap::new();
+    for base in ["Point", "Polyline"] {
+        let good: Vec<PairOp> = (0..n).map(|_| PairOp::Good).collect();
+        if let Ok(run) = run_pairs(base, &good) {
+            files.insert(base, (run.shp, run.shx));
+        }
+    }
     for base in ["Point", "Polyline"] {
         for len in 1..=max_len {
             let total = alphabet.len().pow(len as u32);
@@ -403,6 +410,10 @@ pub fn cases_pairs_c15(tier: &str, stats: &mut Stats, out: &mut Out) {
                     })
                     .collect();
                 stats.hit(&format!("pairs15.len.{}", len));
+                if let Some((shp, shx)) = files.get(base) {
+                    let pops: Vec<(String, usize)> = ops.iter().map(|(c, k)| ((if *c == 's' { "seek" } else { "it" }).to_string(), *k)).collect();
+                    out.case(&Case::Prhist { shp: shp.clone(), shx: shx.clone(), rows: n, ops: pops });
+                }
                 let id = out.oracle_only_id();
                 let txt: Vec<String> = ops.iter().map(|(c, k)| format!("{}{}", c, k)).collect();
                 out.verdict(&id, &format!("scenario reader-pairs {} {} {}", base, n, txt.join(" ")), oracle_c15_pairs(base, n, &ops));
@@ -411,11 +422,53 @@ pub fn cases_pairs_c15(tier: &str, stats: &mut Stats, out: &mut Out) {
     }
 }
 
+/// a dataset written by path over an existing, longer one: every file holds exactly what an
+/// in-memory run produces (nothing of the old content survives behind it)
+pub fn oracle_path_overwrite(n_old: usize, n_new: usize) -> Verdict {
+    let base = std::env::var("VERIF_WORK").unwrap_or_else(|_| "/verif/work".into());
+    let dir = std::path::PathBuf::from(base).join(format!("ho{}", std::process::id()));
+    std::fs::create_dir_all(&dir).unwrap();
+    let path = dir.join("data.shp");
+    let r = catch_unwind(AssertUnwindSafe(|| -> Result<(), String> {
+        let write = |n: usize, off: f64| -> Result<(), String> {
+            let mut w = ShapeWriter::from_path(&path).map_err(|e| show_err(&e))?;
+            for q in 0..n {
+                w.write_shape(&Point::new(q as f64 + off, 10.0 * q as f64)).map_err(|e| show_err(&e))?;
+            }
+            Ok(())
+        };
+        write(n_old, 1000.0)?;
+        write(n_new, 0.0)?;
+        let (shp, shx) = (LogDst::new(), LogDst::new());
+        {
+            let mut w = ShapeWriter::with_shx(shp.clone(), shx.clone());
+            for q in 0..n_new {
+                w.write_shape(&Point::new(q as f64, 10.0 * q as f64)).map_err(|e| show_err(&e))?;
+            }
+        }
+        for (ext, want) in [("shp", shp.data()), ("shx", shx.data())] {
+            let got = std::fs::read(path.with_extension(ext)).map_err(|e| e.to_string())?;
+            if got != want {
+                return Err(format!("{} points written by path over a dataset of {}: the .{} has {} bytes, an in-memory run gives {} (first difference at byte {:?})", n_new, n_old, ext, got.len(), want.len(), got.iter().zip(want.iter()).position(|(a, b)| a != b)));
+            }
+        }
+        Ok(())
+    }));
+    let _ = std::fs::remove_dir_all(&dir);
+    match r {
+        Ok(Ok(())) => Verdict::pass(),
+        Ok(Err(e)) => Verdict::fail("path-stale-bytes", e),
+        Err(e) => Verdict::fail("path-panic", panic_msg(&e)),
+    }
+}
+
 /// replay of the scenarios above
 pub fn oracle_scenario_dbf(prop: &str, a: &[String]) -> Option<Verdict> {
     match (prop, a.first().map(|s| s.as_str())) {
         ("C08", Some("path-pairs")) => Some(oracle_c08_path(a.get(1)?.parse().ok()?)),
         ("C08", Some("path-names")) => Some(oracle_c08_path_names(a.get(1)?, a.get(2)?)),
+        (_, Some("path-overwrite")) => Some(oracle_path_overwrite(a.get(1)?.parse().ok()?, a.get(2)?.parse().ok()?)),
+        ("C08", Some("paged")) => Some(oracle_c08_paged(a.get(1)?, a.get(2)?.parse().ok()?, a.get(3)?.parse().ok()?)),
         ("C15", Some("reader-pairs")) => {
             let base = a.get(1)?;
             let n: usize = a.get(2)?.parse().ok()?;
@@ -427,6 +480,53 @@ pub fn oracle_scenario_dbf(prop: &str, a: &[String]) -> Option<Verdict> {
             Some(oracle_c15_pairs(base, n, &ops))
         }
         _ => None,
+    }
+}
+
+/// reading in pages: k pairs from one iterator, the rest from another one (or from `read()`)
+pub fn oracle_c08_paged(base: &str, n: usize, k: usize) -> Verdict {
+    let good: Vec<PairOp> = (0..n).map(|_| PairOp::Good).collect();
+    let run = match run_pairs(base, &good) {
+        Ok(r) => r,
+        Err(e) => return Verdict::fail("pairs-panic", e),
+    };
+    let r = catch_unwind(AssertUnwindSafe(|| -> Result<(), String> {
+        for use_read in [false, true] {
+            let sr = ShapeReader::with_shx(Cursor::new(run.shp.clone()), Cursor::new(run.shx.clone())).map_err(|e| show_err(&e))?;
+            let dr = dbase::Reader::new(Cursor::new(run.dbf.clone())).map_err(|e| format!("dbase {:?}", e))?;
+            let mut rdr = Reader::new(sr, dr);
+            let mut got: Vec<(usize, usize)> = vec![];
+            let pair = |s: &Shape, row: &dbase::Record| -> Result<(usize, usize), String> {
+                let q = shape_q(s).ok_or("unexpected shape")?;
+                match row.get("idx") {
+                    Some(dbase::FieldValue::Numeric(Some(v))) => Ok((q, *v as usize)),
+                    other => Err(format!("row without idx: {:?}", other)),
+                }
+            };
+            for item in rdr.iter_shapes_and_records().take(k) {
+                let (s, row) = item.map_err(|e| show_err(&e))?;
+                got.push(pair(&s, &row)?);
+            }
+            if use_read {
+                for (s, row) in rdr.read().map_err(|e| show_err(&e))? {
+                    got.push(pair(&s, &row)?);
+                }
+            } else {
+                for item in rdr.iter_shapes_and_records() {
+                    let (s, row) = item.map_err(|e| show_err(&e))?;
+                    got.push(pair(&s, &row)?);
+                }
+            }
+            if got.iter().any(|(a, b)| a != b) {
+                return Err(format!("{} pairs read as a page of {} then the rest: (shape, row) = {:?}", n, k, got));
+            }
+        }
+        Ok(())
+    }));
+    match r {
+        Ok(Ok(())) => Verdict::pass(),
+        Ok(Err(e)) => Verdict::fail("pairs-shifted", e),
+        Err(e) => Verdict::fail("pairs-read-panic", panic_msg(&e)),
     }
 }
 
@@ -510,8 +610,78 @@ pub fn cases_dbf(tier: &str, rng: &mut Rng, stats: &mut Stats, out: &mut Out) {
         let id = out.oracle_only_id();
         out.verdict(&id, &format!("scenario path-pairs {}", n), oracle_c08_path(n));
     }
+    for (n, k) in [(5usize, 2usize), (4, 1), (3, 3), (6, 0), (2, 1)] {
+        for base in ["Point", "Polyline"] {
+            let id = out.oracle_only_id();
+            out.verdict(&id, &format!("scenario paged {} {} {}", base, n, k), oracle_c08_paged(base, n, k));
+        }
+    }
     for (a, b) in [("parcels", "parcels.v2"), ("a.b.c", "a.b"), ("roads", "roads_2024.final"), ("x", "x.shp")] {
         let id = out.oracle_only_id();
         out.verdict(&id, &format!("scenario path-names {} {}", a, b), oracle_c08_path_names(a, b));
+    }
+}
+
+/// the complete Reader driven by a history of seek / iterate operations (correspondence with the
+/// Lean model `PReader`): the table holds `rows` rows, row `i` carries `idx = i`
+pub fn v_prhist(shp: &[u8], shx: &[u8], rows: usize, ops: &[(String, usize)]) -> String {
+    let dbf = LogDst::new();
+    {
+        let d2 = dbf.clone();
+        let mut table = dbase::TableWriterBuilder::new()
+            .add_numeric_field("idx".try_into().unwrap(), 10, 0)
+            .add_character_field("name".try_into().unwrap(), 10)
+            .build_with_dest(d2);
+        for q in 0..rows {
+            if table.write_record(&row_for(PairOp::Good, q)).is_err() {
+                return "panic dbf".into();
+            }
+        }
+    }
+    let dbf = dbf.data();
+    let cap = shp.len() + shx.len() + 8;
+    let (shp, shx, ops) = (shp.to_vec(), shx.to_vec(), ops.to_vec());
+    let r = catch_unwind(AssertUnwindSafe(move || {
+        let sr = match ShapeReader::with_shx(Cursor::new(shp), Cursor::new(shx)) {
+            Ok(r) => r,
+            Err(e) => return format!("open err {}", show_err(&e)),
+        };
+        let dr = match dbase::Reader::new(Cursor::new(dbf)) {
+            Ok(r) => r,
+            Err(_) => return "open err dbase".into(),
+        };
+        let mut rdr = Reader::new(sr, dr);
+        let mut outs: Vec<String> = vec![];
+        for (op, k) in &ops {
+            match op.as_str() {
+                "it" => {
+                    let limit = if *k == 99 { cap } else { *k };
+                    let mut items = vec![];
+                    for item in rdr.iter_shapes_and_records().take(limit) {
+                        items.push(match item {
+                            Ok((s, row)) => {
+                                let idx = match row.get("idx") {
+                                    Some(dbase::FieldValue::Numeric(Some(v))) => format!("{}", *v as usize),
+                                    _ => "?".into(),
+                                };
+                                format!("ok {} row {}", crate::proto::show_sv(&s.to_sv()), idx)
+                            }
+                            Err(e) => format!("err {}", show_err(&e)),
+                        });
+                    }
+                    outs.push(format!("it[{}]", items.join(" ; ")));
+                }
+                "seek" => outs.push(match rdr.seek(*k) {
+                    Ok(()) => "unit".into(),
+                    Err(e) => format!("err {}", show_err(&e)),
+                }),
+                _ => outs.push("bad-op".into()),
+            }
+        }
+        format!("open ok ; {}", outs.join(" ; "))
+    }));
+    match r {
+        Ok(s) => s,
+        Err(e) => format!("panic {}", panic_msg(&e)),
     }
 }
